@@ -173,7 +173,10 @@ class Ref:
                     raise Unspecified("array near the configured size limit")
                 return a + b
             if isinstance(a, dict):
-                d = dict(a); d.update(b); return d
+                d = dict(a); d.update(b)
+                if len(d) > 5000:
+                    raise Unspecified("mapping near the configured size limit")
+                return d
             if isinstance(a, int) and isinstance(b, int):
                 return wrap(a + b)
             return float(a) + float(b)
